@@ -7,6 +7,7 @@ use std::panic::{catch_unwind, AssertUnwindSafe};
 
 mod ops_names;
 mod ops_lexer;
+mod ops_types;
 
 fn s(v: &Value, k: &str) -> String {
     // strings are passed as arrays of bytes ("bytes") or as plain JSON strings
@@ -26,6 +27,7 @@ fn dispatch(v: &Value) -> Value {
         "ping" => json!({"ok": true}),
         "alt_key" | "semver_compat" | "namemap" | "semver_parse" => ops_names::run(op, v),
         "lexer_spans" | "block_comment_length" | "lex_string" => ops_lexer::run(op, v),
+        "subtype" => ops_types::run(op, v),
         _ => json!({"error": format!("unknown op {op}")}),
     }
 }
